@@ -20,6 +20,7 @@ Values:  ("c", const) | ("e", Enum, Member) | ("i", classqual, ((field, val), ..
 from __future__ import annotations
 
 import ast
+import os
 from dataclasses import dataclass, field
 from typing import Any, Callable, Iterable
 
@@ -236,6 +237,12 @@ class Interp:
                 return {}
             byparam[kw.arg] = kw.value
         return {f: byparam[pn] for f, pn in fields.items() if pn in byparam}
+
+    def _over_budget(self) -> bool:
+        import time
+
+        t0 = self.__dict__.setdefault("_t0", time.monotonic())
+        return time.monotonic() - t0 > float(os.environ.get("VERIF_INTERP_BUDGET_S", "420"))
 
     def _known_ctor_quals(self) -> set[str]:
         kq = self.__dict__.get("_kq")
@@ -769,7 +776,9 @@ class Interp:
             nid, env, cs, w = work.pop()
             node = cfg.nodes[nid]
             self.stats["node_states"] += 1
-            if self.stats["node_states"] > 3_000_000:
+            if self.stats["node_states"] > 700_000 or (self.stats["node_states"] % 4096 == 0 and self._over_budget()):
+                # the pinned tree needs at most ~300 000 states (C11); beyond that the analysis gives up instead of
+                # running for a quarter of an hour: no verdict (exit 2), never a silent pass
                 raise AnalysisError("state explosion in abstract interpreter")
             k = node.kind
             if k in ("entry", "nop", "def"):
